@@ -23,7 +23,8 @@ def scope_aggs(P, b):
         O = X.Origins(body, P)
         for bb, j, s in body.all_statements():
             if s["k"] == "assign" and s["rv"]["k"] == "agg" and s["rv"].get("adt", "").endswith("uper::Scope"):
-                out[s["rv"]["variant"]] = ({nm: norm_pos(F.rd(O.operand(o, bb, j))) for nm, o in zip(s["rv"]["fields"], s["rv"]["ops"])},
+                out[s["rv"]["variant"]] = ({nm: norm_pos(F.rd(R.fold_map_payload(P, body, O.operand(o, bb, j))))
+                                            for nm, o in zip(s["rv"]["fields"], s["rv"]["ops"])},
                                            span_loc(s["sp"]), body, bb, j, s)
     return out
 
@@ -49,8 +50,7 @@ def origin_block(body, op, depth=0):
     return None
 
 
-def r1(ctx):
-    rule = "C03.R1"
+def r1(ctx, rule="C03.R1"):
     ctx.rule(rule, "T2 Scope construction symmetry: write_sequence and read_sequence build Scope::ExtensibleSequence / Scope::OptBitField with "
                    "field-wise equal origins (name, bit_pos, optional range, calls_until_ext_bitfield, number_of_ext_fields), the position "
                    "of the extension bit is captured before that bit is written / read, and the presence range starts after it")
@@ -315,6 +315,13 @@ def conditioned_on(P, root, body, bb, pname, depth=0):
         if _is_param(e, pname) and val:
             return True
     if body is root:
+        # no single dominating test (`if is_opt || range.start >= range.end { helper(range) }` with the helper reading only
+        # `if range.start < range.end`): every feasible path to the block has the parameter true
+        idx = [i for i, nm in body.param_names().items() if nm == pname]
+        if idx:
+            dnf = R.reach_dnf(body, O, bb, param_atoms=True)
+            if dnf and all(("param:$%d" % idx[0], "true") in p for p in dnf):
+                return True
         return False
     parent = P.bodies.get("%s::%s" % (body.crate, body.parent or ""))
     if parent is None:
@@ -393,6 +400,69 @@ def r9(ctx, rule="C03.R9"):
         else:
             ctx.ok(rule, v, detail)
     ctx.floor(rule, n, rule + ".accesses")
+
+
+def r10(ctx, rule="C03.R10"):
+    ctx.rule(rule, "every root component is counted: in Scope::write_into_field and Scope::read_from_field the countdown "
+                   "`calls_until_ext_bitfield` of an extensible SEQUENCE is stored to on every path that handles a root component "
+                   "(the branch in which the counter is still above zero) before the function returns - a return in front of the "
+                   "decrement (for OPTIONAL components, say) makes that side reach the extension additions later than its twin, and the "
+                   "extension bit / the addition bitmap are looked for at the wrong component")
+    P = ctx.program()
+    n = 0
+    for side, fn in (("writer", "rw::uper::Scope::write_into_field"), ("reader", "rw::uper::Scope::read_from_field")):
+        try:
+            b = P.one("asn1rs", fn)
+        except KeyError as e:
+            ctx.fail(rule, side + "#anchor-lost", str(e))
+            continue
+        O = X.Origins(b, P)
+        FIELD = "calls_until_ext_bitfield"
+        ptrs = set()
+        for bb, j, st in b.all_statements():
+            if st["k"] == "assign" and st["rv"]["k"] in ("ref", "rawptr") and st["rv"]["pl"]["p"] and \
+                    st["rv"]["pl"]["p"][-1].get("n") == FIELD:
+                ptrs.add(st["pl"]["l"])
+        ptrs = R.pointers_to(b, ptrs) | ptrs if ptrs else ptrs
+        stores = set()
+        for bb, j, st in b.all_statements():
+            if st["k"] != "assign":
+                continue
+            pl = st["pl"]
+            if pl["p"] and pl["p"][-1].get("n") == FIELD:
+                stores.add(bb)
+            elif pl["l"] in ptrs and len(pl["p"]) == 1 and pl["p"][0]["k"] == "deref":
+                stores.add(bb)
+        # the branch that handles a root component: the counter compared with zero
+        tests = [c for c in F.comparisons(b, O) if c.switch_bb is not None and c.kind == "b" and c.rhs == "" and c.boundary == 1
+                 and FIELD in c.lhs]
+        if not tests or not stores:
+            ctx.fail(rule, side + "#anchor-lost:countdown", "%s: the test of the countdown against zero (%d) or the store to it (%d) was not found"
+                     % (X.short(b.path), len(tests), len(stores)), "%s:%d" % (b.file, b.line))
+            continue
+        c = tests[0]
+        t = b.blocks[c.switch_bb]["term"]
+        # normal form `counter < 1`: for Lt / Le the true edge is `otherwise`
+        zero_t, other_t = t["targets"][0], t["otherwise"]
+        if int(t["vals"][0]) != 0:
+            zero_t, other_t = other_t, zero_t
+        below_on_true = c.nop in ("Lt", "Le")
+        root_entry = zero_t if below_on_true else other_t      # the edge on which the counter is >= 1
+        if getattr(c, "flipped", False):
+            root_entry = other_t if root_entry == zero_t else zero_t
+        n += 1
+        free = b.reach_from(root_entry, avoid=stores) if root_entry not in stores else set()
+        leaks = [bb for bb in sorted(free) if b.blocks[bb]["term"] and b.blocks[bb]["term"]["k"] == "return"]
+        detail = {"function": b.path, "countdown_test": c.raw, "at": c.loc, "stores": len(stores),
+                  "root_branch_entry": root_entry}
+        if leaks:
+            # where does the path leave: the last value assigned to the return place on the way
+            ctx.fail(rule, side + "#uncounted-return", "%s returns from the branch that handles a root component on a path that never stores to "
+                                                       "`calls_until_ext_bitfield`: that component is not counted and the extension additions "
+                                                       "are expected one component too late" % X.short(b.path), c.loc, detail)
+        else:
+            ctx.ok(rule, side + "#countdown", detail)
+    ctx.floor(rule, n, rule + ".sides")
 
 
 def r3(ctx):
@@ -618,3 +688,4 @@ def run(ctx):
     from .c01 import r2 as wrapper_symmetry
     wrapper_symmetry(ctx, rule="C03.R8", kinds=("opt", "default"))
     r9(ctx)
+    r10(ctx)
